@@ -56,7 +56,7 @@ _E2E_NOTE = "Trusted: the in-memory rig (net.Pipe listener with TCP-like address
 
 CHECKS["C05"] = {
     "level": "exploration",
-    "technique": "property-based testing (rapid): generated injector sets (default three + custom injectors yielding value/empty/error) x client requests carrying attacker values under injected names in drawn letter case, once or repeated, over HTTP/1.1, HTTP/2 (incl. CONTINUATION) and no-ALPN connections, with parsable and unparsable hellos; oracle on the header values recorded by the backend; plus a burst check (several clients' first requests reach a fresh proxy at the same moment) and the binary's default wiring (overlay); client values in the request's trailer section, custom injectors that panic (also ahead of the default three), two-record hellos cut at drawn offsets",
+    "technique": "property-based testing (rapid): generated injector sets (default three + custom injectors yielding value/empty/error) x client requests carrying attacker values under injected names in drawn letter case, once or repeated, over HTTP/1.1, HTTP/2 (incl. CONTINUATION) and no-ALPN connections, with parsable and unparsable hellos; oracle on the header values recorded by the backend; plus a burst check (several clients' first requests reach a fresh proxy at the same moment) and the binary's default wiring (overlay); client values in the request's trailer section, custom injectors that panic (also ahead of the default three), two-record hellos cut at drawn offsets; requests with a kubelet User-Agent while probe support is off; wiring defaults under drawn unrelated command-line options",
     "rule": "case = connection (protocol, parsable/2-record hello, injector set with outcomes) + 1..3 requests with 0..12 spoofed field lines (configured names in 4 case variants, near-miss names). Non-trivial = a client value is present under a configured name whose injector yields nothing (empty or error) for that request; distinct by hash of the script.",
     "level_text": "Generated-input search with a validity oracle at the backend (values under a configured name are a subset of {proxy-computed value}, at most one, never a client value; near-miss names pass through). Absence of counterexamples in ~2.5k (quick) / 60k (thorough) connections.",
     "level_note": _E2E_NOTE,
@@ -116,7 +116,7 @@ CHECKS["C16"] = {
 
 CHECKS["C11"] = {
     "level": "fault_enumeration",
-    "technique": "fault injection by generated abort/stall points (rapid under testing/synctest fake time): client closes or goes silent after a drawn byte offset of an h2 / http/1.1 / no-ALPN session, garbage / plain-HTTP / silent clients, idle waits after served requests, for drawn handshake and idle timeouts, sequential and parallel; oracles: Close() on the accepted conn, goroutine census of the bubble after teardown, exact fake-time deadlines; plus the same through the CLI flags (overlay test in package fingerproxy)",
+    "technique": "fault injection by generated abort/stall points (rapid under testing/synctest fake time): client closes or goes silent after a drawn byte offset of an h2 / http/1.1 / no-ALPN session, garbage / plain-HTTP / silent clients, idle waits after served requests, for drawn handshake and idle timeouts, sequential and parallel; oracles: Close() on the accepted conn, goroutine census of the bubble after teardown, exact fake-time deadlines; plus the same through the CLI flags (overlay test in package fingerproxy); idle HTTP/2 clients that keep sending control frames but no request",
     "rule": "case = timeouts x 1..6 connections each with a mode (abort at offset, stall at offset, idle after requests, normal close, garbage/plain-http/silent). Non-trivial = an abort or stall strictly inside the session, or an idle wait; distinct by hash of the script.",
     "level_text": "Generated fault points rather than a complete enumeration in the quick tier (offsets 0..2600 drawn uniformly, ~1200 scenarios); the thorough tier enumerates every byte offset of the three reference sessions. Every wait is in fake time, so 'eventually' clauses are decided at quiescence.",
     "level_note": _E2E_NOTE + " net.Pipe connections: OS-level descriptors are not involved.",
@@ -174,7 +174,7 @@ CHECKS["C18"] = {
 
 CHECKS["C19"] = {
     "level": "exploration",
-    "technique": "property-based testing (rapid) + native go fuzzing of http2.Framer: (1) generated sequences of Write* calls over boundary parameters -> bytes compared with an independent RFC 7540 serialiser and read back through ReadFrame against an independent parser; (2) byte streams from a frame grammar with injected defects, raw bytes, truncation and drawn read limits -> accept/reject, parsed fields and error codes compared with the reference; (3) header blocks cut into HEADERS+CONTINUATION chains read back with ReadMetaHeaders; (4) illegal Write* parameters are refused without AllowIllegalWrites; plus header-block sequences through one ReadMetaHeaders decoder and arbitrary frame streams through a ReadMetaHeaders framer (error-type oracle: io/ErrFrameTooLarge/ConnectionError/StreamError only; small MaxHeaderListSize; text in place of a frame header)",
+    "technique": "property-based testing (rapid) + native go fuzzing of http2.Framer: (1) generated sequences of Write* calls over boundary parameters -> bytes compared with an independent RFC 7540 serialiser and read back through ReadFrame against an independent parser; (2) byte streams from a frame grammar with injected defects, raw bytes, truncation and drawn read limits -> accept/reject, parsed fields and error codes compared with the reference; (3) header blocks cut into HEADERS+CONTINUATION chains read back with ReadMetaHeaders; (4) illegal Write* parameters are refused without AllowIllegalWrites; plus header-block sequences through one ReadMetaHeaders decoder and arbitrary frame streams through a ReadMetaHeaders framer (error-type oracle: io/ErrFrameTooLarge/ConnectionError/StreamError only; small MaxHeaderListSize; text in place of a frame header); long-lived framers (hundreds of CONTINUATION frames over many blocks or in one)",
     "rule": "read: case = 1..5 frames (all ten types and unknown types; wrong fixed lengths, stream 0 where forbidden and vice versa, pad >= length, zero increments, reserved bit set, HEADERS/CONTINUATION chains incl. wrong stream, frames above the limit, truncation) + read limit; non-trivial = contains a malformed frame or one above the limit. write: case = 1..8 Write* calls; non-trivial = a padded or priority-carrying frame or a CONTINUATION chain. Distinct by hash of the bytes/script.",
     "level_text": "Generated-input search against an independent frame codec (harness/ref/frameref): no panic, never a frame above the read limit, every malformed frame rejected with a ConnectionError/StreamError whose code is in the set RFC 7540 assigns (escalation to a connection error admitted), every legal frame accepted with identical fields, written bytes identical to the RFC serialisation.",
     "level_note": "Trusted: harness/ref/frameref (about 300 lines). PUSH_PROMISE chains (PUSH_PROMISE without END_HEADERS followed by CONTINUATION) are generated but not judged: the reader tracks HEADERS chains only, and the statement speaks of HEADERS/CONTINUATION interleavings.",
@@ -197,7 +197,7 @@ CHECKS["C08"] = {
 
 CHECKS["C06"] = {
     "level": "exploration",
-    "technique": "property-based testing (rapid under testing/synctest): 2..8 clients with pairwise different utls ClientHellos, HTTP/2 preambles and peer addresses (some equal on purpose) run a generated interleaving of connect / request (sequential keep-alive, multiplexed) / disconnect / reconnect-with-a-different-hello steps, in barrier mode (quiescence after every step, replayable) and free-running (one goroutine per client); every backend request is tagged and its three fingerprints and X-Forwarded-For are compared with references computed from that connection's own wire bytes; direct layer (c06.hammer): the three fingerprint functions evaluated for 2..6 generated connections from up to 32 goroutines at once, some 100 000 evaluations per case, each against the reference value of the connection whose metadata was passed in",
+    "technique": "property-based testing (rapid under testing/synctest): 2..8 clients with pairwise different utls ClientHellos, HTTP/2 preambles and peer addresses (some equal on purpose) run a generated interleaving of connect / request (sequential keep-alive, multiplexed) / disconnect / reconnect-with-a-different-hello steps, in barrier mode (quiescence after every step, replayable) and free-running (one goroutine per client); every backend request is tagged and its three fingerprints and X-Forwarded-For are compared with references computed from that connection's own wire bytes; direct layer (c06.hammer): the three fingerprint functions evaluated for 2..6 generated connections from up to 32 goroutines at once, some 100 000 evaluations per case, each against the reference value of the connection whose metadata was passed in; cancellable request contexts and injector calls for requests already cancelled by their client",
     "rule": "case = client set + step interleaving + mode. Non-trivial = at least two connections with overlapping lifetimes, at least one HTTP/2 and one HTTP/1.1 (or no-ALPN) connection; distinct by hash of the script.",
     "level_text": "Generated histories with an exact per-connection oracle: a value taken from any other connection (past or concurrent, same or other peer address) differs from the expected one and is reported with the tag of the connection it belongs to.",
     "level_note": _E2E_NOTE + " Free-running mode explores the interleavings the Go scheduler happens to produce; barrier mode explores orderings of whole steps.",
@@ -219,7 +219,7 @@ CHECKS["C07"] = {
 
 CHECKS["C14"] = {
     "level": "exploration",
-    "technique": "model-based property testing (rapid) against the real filesystem and inotify in real time: generated histories of update steps on the watched certificate/key paths (in-place truncate / half / full / garbage writes, atomic rename-over with good and bad content, Kubernetes-style symlinked-directory swaps with good and mismatching pairs, a removed-and-recreated file as its own class), each ending with a settle suffix that installs a fresh valid pair in one of the supported styles, while a background client performs TLS handshakes throughout; many rotations under handshake load with bounded waits; idle cases with nobody connecting and the garbage collector switched off",
+    "technique": "model-based property testing (rapid) against the real filesystem and inotify in real time: generated histories of update steps on the watched certificate/key paths (in-place truncate / half / full / garbage writes, atomic rename-over with good and bad content, Kubernetes-style symlinked-directory swaps with good and mismatching pairs, a removed-and-recreated file as its own class), each ending with a settle suffix that installs a fresh valid pair in one of the supported styles, while a background client performs TLS handshakes throughout; many rotations under handshake load with bounded waits; idle cases with nobody connecting and the garbage collector switched off; certificate pairs issued for different names, clients asking for the first pair's name after rotations (wiring)",
     "rule": "case = layout (flat / k8s) + 0..10 steps + settle style. Non-trivial = the history contains a broken intermediate state and uses at least two update styles; distinct by hash of the script.",
     "level_text": "Generated histories with two oracles: safety (every handshake during and after the history succeeds and presents a pair whose certificate and key have both been completely on disk) and convergence (within 3 s of real time after the settle suffix, re-checked once after 2 more seconds, new handshakes present the settled pair).",
     "level_note": "Trusted: this kernel's inotify semantics on this filesystem (tmpfs/overlay under $TMPDIR), fsnotify v1.7.0, wall-clock bound of 3 s + 2 s (events arrive within milliseconds here). The safety set is the superset 'certificate k and key k have each been fully written at some time', which never raises a false alarm.",
@@ -231,7 +231,7 @@ CHECKS["C14"] = {
 
 CHECKS["C12"] = {
     "level": "exploration",
-    "technique": "model-based property testing (rapid under testing/synctest) with a peer-side window ledger: a raw HTTP/2 peer (x/net v0.19.0 framer) drives the fork's http2.Server.ServeConn (downloads of 0..1 MiB in drawn chunks on up to 8 streams, uploads with padded/unpadded DATA against handlers that read all / some / nothing / close early, WINDOW_UPDATE on streams and connection incl. overflow attempts, SETTINGS_INITIAL_WINDOW_SIZE from 0 to 2^31-1 incl. changes that drive open windows negative, SETTINGS_MAX_FRAME_SIZE, RST_STREAM mid-body) and, mirrored, the fork's Transport.NewClientConn (uploads, responses read fully / partly / cancelled); every step ends at quiescence and every DATA / WINDOW_UPDATE / RST_STREAM / GOAWAY frame is judged against the ledger; the server ledger also runs built with a serve-loop yield mapped in by go build -overlay (select order among simultaneously pending events is drawn), with clients that stop reading, stream errors on uploads and graceful GOAWAY; uploads cancelled by the client right behind their data",
+    "technique": "model-based property testing (rapid under testing/synctest) with a peer-side window ledger: a raw HTTP/2 peer (x/net v0.19.0 framer) drives the fork's http2.Server.ServeConn (downloads of 0..1 MiB in drawn chunks on up to 8 streams, uploads with padded/unpadded DATA against handlers that read all / some / nothing / close early, WINDOW_UPDATE on streams and connection incl. overflow attempts, SETTINGS_INITIAL_WINDOW_SIZE from 0 to 2^31-1 incl. changes that drive open windows negative, SETTINGS_MAX_FRAME_SIZE, RST_STREAM mid-body) and, mirrored, the fork's Transport.NewClientConn (uploads, responses read fully / partly / cancelled); every step ends at quiescence and every DATA / WINDOW_UPDATE / RST_STREAM / GOAWAY frame is judged against the ledger; the server ledger also runs built with a serve-loop yield mapped in by go build -overlay (select order among simultaneously pending events is drawn), with clients that stop reading, stream errors on uploads and graceful GOAWAY; uploads cancelled by the client right behind their data; WINDOW_UPDATE frames with the reserved bit set",
     "rule": "case = operation history on one connection. Non-trivial = a window reaches <= 0 with data still queued (and later reopens), or a stream is reset mid-body, or INITIAL_WINDOW_SIZE changes with streams open; distinct by hash of the history.",
     "level_text": "Generated histories with an exact ledger: DATA never above stream window, connection window or the max frame size in force (settings switch at the SETTINGS ACK); at quiescence nothing deliverable is left undelivered; bodies arrive complete and unaltered once windows open; a window pushed above 2^31-1 or DATA beyond the advertised window draws a FLOW_CONTROL_ERROR; un-returned connection credit never exceeds unread bytes held by live handlers + 4096.",
     "level_note": "Trusted: the ledger in harness/c12 (RFC 9113 section 5.2/6.9), x/net v0.19.0 framer as the peer's codec, testing/synctest quiescence. The harness owns the schedule: steps are separated by quiescence, so interleavings of whole steps are explored, not instruction-level races.",
